@@ -20,6 +20,7 @@ def run(ctx):
         cs = W.gen_sentences(ctx, f"C04-gen{k}", alpha, {0, 1, 2}, maxn, ntags, rows, thm)
         sents += [c["sent"] for c in cs]
     W.round_trip(ctx, binp, "part", sents, "round")
+    W.random_round_trips(ctx, binp, "part", 6000 if ctx.quick else 80000)
     ctx.exhaustive = True
 
 
